@@ -6,7 +6,7 @@ driver for the marks model (engine `marks`, C20)
 request (one line, blank separated tokens):
   `run <nshares> init* <nframes> frame* <nticks> tick*`
     init  := `<nfields> (<field> <val>)*`
-    frame := `<name> <over: -|=frame> <nG> guard* <nE> write* <nR> write* <nX> write* <nT> trans*`
+    frame := `<name> <over: -|=frame> <nG> guard* <nGN> need* <nE> write* <nR> write* <nX> write* <nT> trans*`
     guard := `<0|1 negated> <share> <field>`          (`let me if [not] field in share`)
     write := `P <share> <nfields> (<field> <val>)*`  (Share.update, stamps)
            | `C <share> <nfields> (<field> <val>)*`  (Share.change, no stamp)
@@ -116,11 +116,12 @@ def frame : P FrameSrc := fun ts => do
   let (o, r) ← tok r
   let over ← (match o with | "-" => some none | o => (eqName o).map some)
   let (g, r) ← many guard r
+  let (gn, r) ← many need r
   let (e, r) ← many write r
   let (c, r) ← many write r
   let (x, r) ← many write r
   let (t, r) ← many trans r
-  return (⟨name, over, g, e, c, x, t⟩, r)
+  return (⟨name, over, g, gn, e, c, x, t⟩, r)
 
 def tickP : P (List Write × List Write) := fun ts => do
   let (b, r) ← many write ts
@@ -142,7 +143,7 @@ def guardsOk (inits : List Fields) (p : Program) : Bool :=
 
 def progOk (n : Nat) (p : Program) (sched : Schedule) : Bool :=
   p.all (fun f => f.enter.all (writeOk n) && f.recur.all (writeOk n) && f.exit.all (writeOk n) &&
-    f.trans.all (fun t => t.needs.all (fun nd => nd.share < n))) &&
+    f.trans.all (fun t => t.needs.all (fun nd => nd.share < n)) && f.gneeds.all (fun nd => nd.share < n)) &&
   sched.all (fun t => t.1.all (writeOk n) && t.2.all (writeOk n)) && !p.isEmpty
 
 def showObs (r : Resolved) (o : Nat × Bool) : String :=
@@ -161,7 +162,7 @@ def runLine (ts : List String) : Option String := do
     -- the over links must form a forest (the real builder hangs on a cycle), and the first outline
     -- must be enterable without conditions (a framer whose first outline refuses entry never starts)
     if !(acyclic rs.frames) then none
-    if !((outline rs.frames 0).all (fun j => ((rs.frames[j]?.map (·.guards)).getD []).isEmpty)) then none
+    if !((outline rs.frames 0).all (fun j => ((rs.frames[j]?.map (·.guards)).getD []).isEmpty && ((rs.frames[j]?.map (·.gneeds)).getD []).isEmpty)) then none
     let (_, obs, _) := run rs inits sched
     return " ".intercalate (obs.map (showObs rs))
 
